@@ -27,13 +27,24 @@ type c06Query struct {
 type c06Case struct {
 	Setup   []model.Stmt `json:"setup"`
 	Queries []c06Query   `json:"queries"`
+	Catalog bool         `json:"catalog,omitempty"` // sys_schema takes part in the joins
 }
+
+var c06CatalogCreate = model.Stmt{Kind: "create", Table: "sys_schema", Cols: []model.Col{
+	{Name: "table_name", Type: model.TVarchar, Len: 255}, {Name: "field_name", Type: model.TVarchar, Len: 255},
+	{Name: "field_type", Type: model.TInt}, {Name: "field_length", Type: model.TInt}}}
 
 func c06Gen(rt *rapid.T) c06Case {
 	c := c06Case{Setup: gen.JoinTables(rt)}
 	db := model.NewDB()
 	for _, s := range c.Setup {
 		gen.MustApply(db, s)
+	}
+	if rapid.IntRange(0, 3).Draw(rt, "catalog") == 0 {
+		// the catalog table as a join participant (its rows are whatever the database says they
+		// are: the runner snapshots them; here only the columns matter)
+		gen.MustApply(db, c06CatalogCreate)
+		c.Catalog = true
 	}
 	n := rapid.IntRange(1, 8).Draw(rt, "nqueries")
 	for i := 0; i < n; i++ {
@@ -138,6 +149,25 @@ func c06Run(c c06Case, st *vlib.Stats) string {
 		}
 		if err := eng.ExecStmt(s); err != nil {
 			return fmt.Sprintf("setup statement refused: %v (%s)", err, s)
+		}
+	}
+	if c.Catalog {
+		// sys_schema as the database reports it becomes a table of the reference model
+		res, err := eng.Query("SELECT * FROM sys_schema")
+		if err != nil {
+			return "SELECT * FROM sys_schema failed: " + err.Error()
+		}
+		if k, merr := m.Apply(c06CatalogCreate); merr != nil || k != model.OK {
+			return fmt.Sprintf("harness: cannot add the catalog table to the model: %v %v", k, merr)
+		}
+		for _, r := range res.Rows {
+			ins := model.Stmt{Kind: "insert", Table: "sys_schema", Rows: [][]model.Val{nil}}
+			for _, v := range r {
+				ins.Rows[0] = append(ins.Rows[0], model.FromGo(v))
+			}
+			if k, merr := m.Apply(ins); merr != nil || k != model.OK {
+				return fmt.Sprintf("harness: cannot copy a catalog row into the model: %v %v", k, merr)
+			}
 		}
 	}
 	for qi, cq := range c.Queries {
